@@ -21,6 +21,7 @@
 import LispModel.Proofs.Positions
 import LispModel.Proofs.LayoutFull
 import LispModel.Util
+import LispModel.Proofs.SeedLaws
 namespace LispModel.Props.C17
 open LispModel LispModel.Read LispModel.Scan
 open LispModel.Proofs.Positions LispModel.Proofs.Layout LispModel.Proofs.Reader
@@ -259,5 +260,41 @@ theorem error_position_within_some_top_form (Rw : Val → Pos → Prop) (F env :
     (h : runForms F env st forms = (some (T, .lisp pl (some q)), st')) :
     ∃ pre post, forms = pre ++ T :: post ∧ (Q q ∨ ∃ T' ∈ pre ++ [T], Rw T' q) :=
   runForms_error_position Rw F env forms Q st hst hf T pl q st' h
+
+/-! ## laws added after the seeded changes of rounds 3–5 -/
+open LispModel.Proofs.SeedLaws.C17 (readModuleIs)
+
+/-- without a module name in the configuration the reader takes it from the header line of the text … -/
+theorem readStr_module_from_header {cfg : Cfg} (hm : cfg.module = none) (bytes : List UInt8) :
+    readStr cfg bytes = readStr { cfg with module := modulePrefix bytes } bytes :=
+  Proofs.SeedLaws.C17.readStr_module_from_header hm bytes
+
+/-- … so with a first line `;; $MODULE name` every cursor of the read form names `name` -/
+theorem module_from_header {cfg : Cfg} (hm : cfg.module = none) {bytes : List UInt8} {name : String}
+    (hh : modulePrefix bytes = some name)
+    (hphs : PhsAll (fun p => p.module = some name) cfg) {v : Val}
+    (h : readStr cfg bytes = .ok v) : AllPos (fun p => p.module = some name) v :=
+  Proofs.SeedLaws.C17.module_from_header hm hh hphs h
+
+/-- with a module name in the configuration the header is not consulted (and
+    `reader_positions_name_module` applies to the text whatever its first line says) -/
+theorem module_header_ignored_when_named {cfg : Cfg} {m : String} (hm : cfg.module = some m)
+    (bytes : List UInt8) :
+    (if cfg.module.isNone then { cfg with module := modulePrefix bytes } else cfg) = cfg :=
+  Proofs.SeedLaws.C17.module_header_ignored_when_named hm bytes
+
+/-- the header names the module, also a name containing a blank; without header there is none -/
+theorem module_from_header_examples :
+    (modulePrefix (bytes% ";; $MODULE nightly report.lisp\n(f [x] y)") == some "nightly report.lisp" &&
+     readModuleIs {} (bytes% ";; $MODULE nightly report.lisp\n(f [x] y)") (some "nightly report.lisp") &&
+     readModuleIs {} (bytes% ";; $MODULE a.lisp\n(f [x] y)") (some "a.lisp") &&
+     readModuleIs {} (bytes% "(f [x] y)") none) = true :=
+  Proofs.SeedLaws.C17.module_from_header_examples
+
+/-- a module name given by the caller wins over the header -/
+theorem module_header_ignored_example :
+    (readModuleIs { module := some "m" } (bytes% ";; $MODULE other.lisp\n(f [x] y)") (some "m") &&
+     !readModuleIs { module := some "m" } (bytes% ";; $MODULE other.lisp\n(f [x] y)") (some "other.lisp")) = true :=
+  Proofs.SeedLaws.C17.module_header_ignored_example
 
 end LispModel.Props.C17
